@@ -49,11 +49,12 @@ def mark_relaxation(ops):
                 o.may_miss = True
 
 
-def linearize(spec0, ops, final_ok, relax=True):
+def linearize(spec0, ops, final_ok, relax=True, apply=None):
     """Return a witness order (list of Op) or None."""
     if relax:
         mark_relaxation(ops)
     ops = list(ops)
+    apply = apply or model_op
 
     def rec(spec, remaining, order):
         if not remaining:
@@ -63,7 +64,7 @@ def linearize(spec0, ops, final_ok, relax=True):
                 continue
             s2 = copy.deepcopy(spec)
             s2.culls = False
-            want = model_op(s2, o.op)
+            want = apply(s2, o.op)
             rest = [p for p in remaining if p is not o]
             if same(want, o.result):
                 got = rec(s2, rest, order + [o])
